@@ -9,11 +9,11 @@ CHECKS = {
    note="Trusted: FK_ref, the arm-reach oracle used to label poses unreachable, nalgebra conversions. Lattice-relative."),
  "C02": dict(engine="E1-lattice", ref="5/C02",
    technique="bounded-exhaustive lattice enumeration with an oracle-computed branch count (independent arm IK) and closure re-solves",
-   text="For every lattice configuration outside oracle-computed singularity/reach margins: q is among inverse(FK_ref(q)), the number of answers equals 2 x the number of arm branches an independent positional arm IK finds, wrist-flipped twins are present, no duplicates, and every answer's pose yields a set of the same size. Both 4- and 8-answer poses must occur or the run is void. Threshold sweep (one length parameter (a1, a2, b, c4) -> 0): the axis that approaches a special value is enumerated along a magnitude ladder (13 per decade, 1e-12..1e-2, both sides, plus neighbours/squares/roots of the float literals of the source file under test).",
+   text="For every lattice configuration outside oracle-computed singularity/reach margins: q is among inverse(FK_ref(q)), the number of answers equals 2 x the number of arm branches an independent positional arm IK finds, wrist-flipped twins are present, no duplicates, and every answer's pose yields a set of the same size. Both 4- and 8-answer poses must occur or the run is void. Threshold sweep (one length parameter (a1, a2, b, c4) -> 0): the axis that approaches a special value is enumerated along a magnitude ladder (13 per decade, 1e-12..1e-2, both sides, plus neighbours/squares/roots of the float literals of the source file under test). Every pose is also solved with its quaternion negated (q and -q are one rotation): same answer set.",
    note="Trusted: FK_ref and the closed-form arm oracle in the harness; margins 1e-3 (sin), 1e-6 (reach cosine), 1 mm (shoulder)."),
  "C03": dict(engine="E1-lattice", ref="5/C03",
    technique="bounded-exhaustive lattice enumeration of (robot, joint vector) on the real FK code against an independent link-chain model",
-   text="Every point of a finite product lattice (geometries incl. b!=0/a2!=0, zero and negative link lengths x all 64 sign patterns x offsets x joint values incl. |q|>>2pi) is executed on forward and forward_with_joint_poses and compared with FK_ref (elementary-transform chain, cross-validated in the same run on 2048 recorded cases of an independent C++ implementation); prefix dependence is checked bit-exactly, link separations to 1e-12. Threshold sweep (one length parameter -> 0; dof-5 parameter sets): the axis that approaches a special value is enumerated along a magnitude ladder (13 per decade, 1e-12..1e-2, both sides, plus neighbours/squares/roots of the float literals of the source file under test).",
+   text="Every point of a finite product lattice (geometries incl. b!=0/a2!=0, zero and negative link lengths x all 64 sign patterns x offsets x joint values incl. |q|>>2pi) is executed on forward and forward_with_joint_poses and compared with FK_ref (elementary-transform chain, cross-validated in the same run on 2048 recorded cases of an independent C++ implementation); prefix dependence is checked bit-exactly, link separations to 1e-12. Threshold sweep (one length parameter -> 0; dof-5 parameter sets): the axis that approaches a special value is enumerated along a magnitude ladder (13 per decade, 1e-12..1e-2, both sides, plus neighbours/squares/roots of the float literals of the source file under test). On an eighth of the points an unrelated robot on the same thread is asked the same question first and the robot under test twice: forward kinematics must be a function of (parameters, joints) alone.",
    note="Trusted: FK_ref (hand-written f64 matrices), nalgebra quaternion<->matrix conversion, the lattice as printed in evidence."),
  "C04": dict(engine="E1-lattice + E2-graph", ref="5/C04",
    technique="lattice enumeration of continuation calls plus explicit-state search (stateright BFS, run twice) over joint-space trajectories whose transitions call the real solver",
@@ -25,11 +25,11 @@ CHECKS = {
    note="Band edge +-5% skipped. Continuity is demanded only under the two preconditions named in the property, computed independently of the solver."),
  "C06": dict(engine="E1-lattice", ref="5/C06",
    technique="bounded-exhaustive lattice over robots (dof 5/6), stacks, J6 alphabet and the four entry points against the stack's reference FK",
-   text="Every answer's tool point and tool axis are checked through the reference FK of the stack, J6 must be bit-equal to the caller's value (0 for plain inverse on a 5-DOF robot), the originating J1..J5 must be present and the list non-empty on regular poses; history variant: the previous vector already holds the requested tool point but another tool axis. Threshold sweep (J5 -> 0 and pi, completeness from 1.05 x the band): the axis that approaches a special value is enumerated along a magnitude ladder (13 per decade, 1e-12..1e-2, both sides, plus neighbours/squares/roots of the float literals of the source file under test).",
+   text="Every answer's tool point and tool axis are checked through the reference FK of the stack, J6 must be bit-equal to the caller's value (0 for plain inverse on a 5-DOF robot), the originating J1..J5 must be present and the list non-empty on regular poses; history variant: the previous vector already holds the requested tool point but another tool axis. Threshold sweep (J5 -> 0 and pi, completeness from 1.05 x the band): the axis that approaches a special value is enumerated along a magnitude ladder (13 per decade, 1e-12..1e-2, both sides, plus neighbours/squares/roots of the float literals of the source file under test). Robots declared 5-DOF through a URDF description object must keep the declaration through parameters().",
    note="Trusted: FK_ref and the stack model. Lattice-relative."),
  "C07": dict(engine="E1-lattice + E2-graph", ref="5/C07",
    technique="exhaustive enumeration of (from, to, angle) on a degree lattice of [-720,720]^3 against arc membership by definition; BFS over constructor/update_range sequences",
-   text="All (from,to) pairs x all angles on the 5-degree (thorough 3-degree) lattice, a third of the angles moved off-lattice by irrational shifts, three constructors, neighbours wide or from==to; oracle = arc membership modulo 2pi; plus centre accepted, filter == pointwise compliant, and all constructor/update_range sequences to depth 3 compared field by field with a fresh constructor. Threshold sweep (range width -> 0 and -> a full turn, signed zeros): the axis that approaches a special value is enumerated along a magnitude ladder (13 per decade, 1e-12..1e-2, both sides, plus neighbours/squares/roots of the float literals of the source file under test).",
+   text="All (from,to) pairs x all angles on the 5-degree (thorough 3-degree) lattice, a third of the angles moved off-lattice by irrational shifts, three constructors, neighbours wide or from==to; oracle = arc membership modulo 2pi; plus centre accepted, filter == pointwise compliant, and all constructor/update_range sequences to depth 3 compared field by field with a fresh constructor. Threshold sweep (range width -> 0 and -> a full turn, signed zeros): the axis that approaches a special value is enumerated along a magnitude ladder (13 per decade, 1e-12..1e-2, both sides, plus neighbours/squares/roots of the float literals of the source file under test). URDF encoding of 'no limit': 7 masks of joints without <limit> x 4 declaration orders, unlimited joints accept every angle.",
    note="Lattice points on an arc end are skipped except an exactly decidable family; reversed ranges with from = to (mod 360) are ambiguous in the statement and skipped."),
  "C08": dict(engine="E2-graph + E1-lattice", ref="5/C08",
    technique="breadth-first enumeration of wrapper stacks (depth <= 3 thorough) with a differential oracle: constrained stack vs the identical unconstrained stack filtered by arc membership",
@@ -45,7 +45,7 @@ CHECKS = {
    note="The oracle (own f64 segment/triangle code) is cross-checked against parry's exact queries in every run; pairs within 1 mm of their limit are not judged; tasks are assumed atomic (textual audit of collisions.rs each run, exit 2 if it no longer holds)."),
  "C11": dict(engine="E1-lattice", ref="5/C11",
    technique="bounded-exhaustive enumeration of constructors x frames x environments x safety x limits x postures with a differential oracle (ordered filter of the underlying stack's answers)",
-   text="Each inverse entry point of KinematicsWithShape must return exactly the underlying stack's answers with !collides, in unchanged order, bit-equal; forward/link poses/singularity bit-equal; the underlying stack is built by the harness from the same pieces (tool over base over the limited robot), and constraints() must return the limits given to the constructor field by field (incl. hand-set public centers/tolerances); the constructed stack equals base*FK_ref*tool; positioned_robot places meshes at the link poses; previous in {near, CONSTRAINT_CENTERED, far}; J6 arguments {0.4, 2.9, 0.4 + 2 pi} and limit variants incl. wrapping J4/J6 ranges and an unconstrained J6; previous also equal to each answer of the underlying stack itself (the robot 'already stands' on a solution, colliding ones included); a second robot (same environment size, obstacles moved / other safety) is queried on the same thread just before each call (no state shared between instances); verdicts for the reference filter come from collision_details.",
+   text="Each inverse entry point of KinematicsWithShape must return exactly the underlying stack's answers with !collides, in unchanged order, bit-equal; forward/link poses/singularity bit-equal; the underlying stack is built by the harness from the same pieces (tool over base over the limited robot), and constraints() must return the limits given to the constructor field by field (incl. hand-set public centers/tolerances); the constructed stack equals base*FK_ref*tool; positioned_robot places meshes at the link poses; previous in {near, CONSTRAINT_CENTERED, far}; J6 arguments {0.4, 2.9, 0.4 + 2 pi} and limit variants incl. wrapping J4/J6 ranges and an unconstrained J6; previous also equal to each answer of the underlying stack itself (the robot 'already stands' on a solution, colliding ones included); a second robot (same environment size, obstacles moved / other safety) is queried on the same thread just before each call (no state shared between instances); verdicts for the reference filter come from collision_details. A fourth construction path builds the robot with checking off and installs the safety table through the public field afterwards.",
    note="collides() itself is tied to the pair oracle by C10. Cases where collisions remove some but not all answers must occur or the run is void."),
  "C12": dict(engine="E1-lattice + E4-sched", ref="5/C12",
    technique="scenario lattice on the real planner with scripted RNG, plus stateless DFS over all (or preemption-bounded) interleavings of the strategy race under a token-passing controller at the stop-flag hook points; rayon runs validated against explored traces",
@@ -53,7 +53,7 @@ CHECKS = {
    note="RNG draws are scripted to a constant so RRT legs are deterministic; the controller is sequentially consistent (the flag is monotone, see DESIGN 8); the cost clause is judged only when no RRT gap closing can be inside the Cartesian part."),
  "C13": dict(engine="E3-env", ref="5/C13",
    technique="exhaustive tree exploration of scripted sample sequences (ScriptedRng hook) of the real dual-tree RRT, default-first with every deviation at every consumed position; cancellation injected inside every consumed sample",
-   text="Layouts {free, pillar, plates around the tool} x limits {wide, window, wrapping, non-wrapping beyond +-pi} x step sizes (0.05..2.5 rad, and 2.5e-4 / 8e-4 rad on a pair 0.03 rad apart; goal equal to the start exactly and up to 1e-17 residues) x try budgets 0..5 (thorough 6) x alphabet of 5 (thorough 7) joint-space samples: every Ok path starts/ends bit-exactly at start/goal, every node is reported free, consecutive nodes are within 3 steps, nodes are within non-wrapping limits; a flag raised before the call gives Err, a flag raised inside sample k lets at most that iteration finish.",
+   text="Layouts {free, pillar, plates around the tool} x limits {wide, window, wrapping, non-wrapping beyond +-pi} x step sizes (0.05..2.5 rad, and 2.5e-4 / 8e-4 rad on a pair 0.03 rad apart; goal equal to the start exactly and up to 1e-17 residues) x try budgets 0..5 (thorough 6) x alphabet of 5 (thorough 7) joint-space samples: every Ok path starts/ends bit-exactly at start/goal, every node is reported free, consecutive nodes are within 3 steps, nodes are within non-wrapping limits; a flag raised before the call gives Err, a flag raised inside sample k lets at most that iteration finish. The construction history of the limits (new, update_range over three kinds of earlier range, from_degrees) rotates over the scenarios.",
    note="Runs on plain OS threads (the thread-local script must not be clobbered by rayon work stealing); every 16th execution is replayed and compared."),
  "C14": dict(engine="E1-lattice", ref="5/C14",
    technique="bounded-exhaustive enumeration of cells x initial postures x from/to vectors against the 12-candidate definition with the full collision check as oracle; pools 1..16",
@@ -69,11 +69,11 @@ CHECKS = {
    note="Trusted: FK_ref, stack model."),
  "C17": dict(engine="E1-lattice", ref="5/C17",
    technique="exhaustive enumeration of triangles x rigid motions x per-point perturbations around the 5 mm tolerance, degenerate triples, and forward_transformed cases",
-   text="Exact images: frame maps the points, is a proper rotation and equals the generating motion; perturbations of 6/50 mm are rejected as NotIsometry, 1/4 mm accepted; collinear/coincident triples give ColinearPoints with the right side; Frame::translation; forward_transformed pose, soundness and order. Threshold sweep (rotation angle -> 0 / half turn, perturbation -> 5 mm, triangle height -> 0): the axis that approaches a special value is enumerated along a magnitude ladder (13 per decade, 1e-12..1e-2, both sides, plus neighbours/squares/roots of the float literals of the source file under test). Two image points moved apart / together by 1..4.9 mm each, classified by the largest change of a side length.",
+   text="Exact images: frame maps the points, is a proper rotation and equals the generating motion; perturbations of 6/50 mm are rejected as NotIsometry, 1/4 mm accepted; collinear/coincident triples give ColinearPoints with the right side; Frame::translation; forward_transformed pose, soundness and order. Threshold sweep (rotation angle -> 0 / half turn, perturbation -> 5 mm, triangle height -> 0): the axis that approaches a special value is enumerated along a magnitude ladder (13 per decade, 1e-12..1e-2, both sides, plus neighbours/squares/roots of the float literals of the source file under test). Two image points moved apart / together by 1..4.9 mm each, classified by the largest change of a side length. forward_transformed is preceded by the same query on a frame over an unrelated robot.",
    note="Tolerances scale with the distance from the origin and the triangle height (conditioning)."),
  "C18": dict(engine="E3-env", ref="5/C18",
    technique="exhaustive enumeration of scripted RNG answers (ScriptedRng hook) over a lattice of ranges; piecewise-linear argument makes the draw alphabet complete per range",
-   text="(from,to) on a 5-degree (thorough 3-degree) lattice of [-360,360]^2 x unit draws {0, 2^-52, i/64, 1-2^-52, both sides of the segment switch point} x construction histories {new, from_degrees, update_range over five earlier ranges}; the real sampler consumes exactly these raw draws; result must lie on the arc and be accepted by compliant(); no panic. Threshold sweep (range width -> 0 / full turn, signed zeros): the axis that approaches a special value is enumerated along a magnitude ladder (13 per decade, 1e-12..1e-2, both sides, plus neighbours/squares/roots of the float literals of the source file under test).",
+   text="(from,to) on a 5-degree (thorough 3-degree) lattice of [-360,360]^2 x unit draws {0, 2^-52, i/64, 1-2^-52, both sides of the segment switch point} x construction histories {new, from_degrees, update_range over five earlier ranges}; the real sampler consumes exactly these raw draws; result must lie on the arc and be accepted by compliant(); no panic. Threshold sweep (range width -> 0 / full turn, signed zeros): the axis that approaches a special value is enumerated along a magnitude ladder (13 per decade, 1e-12..1e-2, both sides, plus neighbours/squares/roots of the float literals of the source file under test). A sibling constraints set with the same lower limits is sampled on the same thread just before a quarter of the draws.",
    note="Relies on rand 0.9's u64 -> f64 mapping ((r >> 12) / 2^52), guarded by the draw-count check."),
  "C19": dict(engine="E1-lattice", ref="5/C19",
    technique="exhaustive enumeration of parameter records, documented syntax variants, all 1-/2-edit deviations of the documented file and all token strings up to a length bound",
@@ -81,7 +81,7 @@ CHECKS = {
    note="J6 sign of a 5-DOF record is not compared (the loader documents that it blocks it)."),
  "C20": dict(engine="E1-lattice", ref="5/C20",
    technique="exhaustive enumeration of generated URDF/xacro descriptions over layout, naming, nesting and joint-order permutations, with rotating sign/limit/copy axes; error-path enumeration",
-   text="Extracted parameters equal the printed decimals, signs follow the axes, limits follow each syntax (six uniform styles and three mixed per joint, so a joint without <limit> follows limited siblings in every declaration order; parameter records incl. exact relations b == c2, c3 == -a2, all equal), the built solver's compliance equals arc membership (no <limit> => unconstrained), conflicting copies (differing in an origin, or in the limits only) are errors; missing joints and token corruptions never panic.",
+   text="Extracted parameters equal the printed decimals, signs follow the axes, limits follow each syntax (six uniform styles and three mixed per joint, so a joint without <limit> follows limited siblings in every declaration order; parameter records incl. exact relations b == c2, c3 == -a2, all equal), the built solver's compliance equals arc membership (no <limit> => unconstrained), conflicting copies (differing in an origin, or in the limits only) are errors; missing joints and token corruptions never panic. One document in 16 is first extracted in the other naming mode; the same decorated names are resolved automatically and passed as an explicit list.",
    note="5-DOF detection is not judged (not demanded by the statement)."),
 }
 
